@@ -241,6 +241,18 @@ class R:
     def log(self):
         return fn("log", self)
 
+    def log1p(self):
+        return fn("log", 1 + self)
+
+    def expm1(self):
+        return fn("exp", self) - 1
+
+    def log2(self):
+        return fn("log", self) / fn("log", R.lift(2))
+
+    def log10(self):
+        return fn("log", self) / fn("log", R.lift(10))
+
     def exp(self):
         return fn("exp", self)
 
